@@ -557,9 +557,24 @@ class SmallSet {
     if (!isSmall() && !o.isSmall()) {
       return _set == o._set;
     }
-    // We have at least one set that is unsorted. Use is_permutation
+    // We have at least one set that is unsorted. As std::set does, compare the elements in the order defined by the compare
+    // object of each set (two sets of the same type may be ordered differently when the compare type has state).
     // We use equality here, not equivalence (ie using == operator instead of <)
-    return std::is_permutation(begin(), end(), o.begin(), o.end());
+    struct Equal {
+      bool operator()(const_pointer pLhs, const_pointer pRhs) const { return *pLhs == *pRhs; }
+      bool operator()(const_pointer pLhs, const_reference rhs) const { return *pLhs == rhs; }
+      bool operator()(const_reference lhs, const_pointer pRhs) const { return lhs == *pRhs; }
+    };
+    if (isSmall()) {
+      PtrVec sortedPtrs = ComputeSortedPtrVec(_vec);
+      if (o.isSmall()) {
+        PtrVec oSortedPtrs = o.ComputeSortedPtrVec(o._vec);
+        return std::equal(sortedPtrs.begin(), sortedPtrs.end(), oSortedPtrs.begin(), Equal());
+      }
+      return std::equal(sortedPtrs.begin(), sortedPtrs.end(), o._set.begin(), Equal());
+    }
+    PtrVec oSortedPtrs = o.ComputeSortedPtrVec(o._vec);
+    return std::equal(_set.begin(), _set.end(), oSortedPtrs.begin(), Equal());
   }
 
   bool operator!=(const SmallSet &o) const { return !(*this == o); }
